@@ -64,6 +64,27 @@ pub(crate) fn generate_operation_text<'a, TCompilationProfile: CompilationProfil
     }
 }
 
+/// The query text as the body of a single-quoted JavaScript string literal (i.e. what goes
+/// between the quotes of `export default '...';`).
+///
+/// The pretty query text ends its lines with a backslash followed by a newline, which
+/// JavaScript reads as a line continuation; those are kept. Every other backslash and every
+/// apostrophe comes from a string argument (e.g. `name: "it's"`) and must be escaped, or it
+/// would end the literal early (or be swallowed by it).
+pub(crate) fn query_text_as_single_quoted_js_string_body(query_text: &str) -> String {
+    let mut body = String::with_capacity(query_text.len());
+    let mut chars = query_text.chars().peekable();
+    while let Some(c) = chars.next() {
+        match c {
+            '\\' if chars.peek() == Some(&'\n') => body.push('\\'),
+            '\\' => body.push_str("\\\\"),
+            '\'' => body.push_str("\\'"),
+            _ => body.push(c),
+        }
+    }
+    body
+}
+
 pub fn hash(data: &str, algorithm: PersistedDocumentsHashAlgorithm) -> String {
     match algorithm {
         PersistedDocumentsHashAlgorithm::Md5 => {
